@@ -6,6 +6,51 @@ ROOT = os.path.dirname(os.path.dirname(os.path.abspath(__file__)))
 ALL = ["C%02d" % i for i in range(1, 21)]
 
 CLAIMED = {
+ "C04": dict(
+  text="Lean 4 theorems on the inbound handlers of Model.Session: a QoS 2 PUBLISH is returned only when no marker exists for its identifier "
+       "(C04_once_per_cycle: the marker lives in the Persistence, so reconnects and restarts keep suppressing), every suppressed duplicate owes "
+       "its PUBREC again (C04_dupe_answered, the F3 repair), the PUBREL handler clears the marker before answering, marker keys are disjoint from "
+       "every outbound key. The composition inside readSlices (marker Save before PUBREC at the next call) is tied by correspondence: inbound "
+       "QoS 2 streams with DUP retransmissions, PUBREL repeats, losses after each acknowledgement and restarts, judged by an inbound monitor.",
+  design="6/C04", technique="Lean 4 proof (handler-level case analysis) + differential correspondence + inbound monitor",
+  note="partial: theorems are per handler; the readSlices loop composition is covered by the correspondence; the documented BUG case is excluded by the statement"),
+ "C06": dict(
+  text="Lean 4 theorems: the buffered reader (fill, Peek, ReadByte, Discard as bufio implements them) refines the flat byte stream for every "
+       "chunking - Peek consumes nothing and returns exactly the next n bytes when it succeeds, ReadByte returns the head, Discard removes "
+       "exactly what it reports (all n on success), deadline expiries and errors lose nothing - and parsePublish slices topic/payload exactly. "
+       "Well-formed streams x chunkings x progress-making expiries around the buffer size are run through the real ReadSlices/ReadAll and "
+       "compared with the bytes fed (model-independent oracle) and with the model.",
+  design="6/C06", technique="Lean 4 proof (refinement of a buffered reader to a flat stream) + differential correspondence over chunkings",
+  note="partial: the theorems are about the reader and the slicing; their composition in peekPacket/readSlices is tied by the correspondence; A-bufio"),
+ "C07": dict(
+  text="Lean 4 theorems: returning a message writes nothing, saves nothing, deletes nothing (C07_return_writes_nothing: onPUBLISH only "
+       "enqueues), the enqueued acknowledgement carries that message's identifier and level, no second QoS>0 message is returned while one is "
+       "owed, and the read routine's own write never waits for a connect. When the flush happens (start of the next ReadSlices) is tied by "
+       "correspondence with the harness deciding when ReadSlices is called again; an inbound monitor judges each PUBACK/PUBREC position.",
+  design="6/C07", technique="Lean 4 proof (frame property of the returning handler) + differential correspondence + ack-position monitor",
+  note="partial: 'eventually acknowledged' under concurrency belongs to the Sync model (C10)"),
+ "C13": dict(
+  text="Lean 4 theorems: the client's remaining-length loop accepts exactly what the reference decoder accepts (1-4 bytes, fifth byte is a "
+       "violation) and every accepted size is <= 2^28-1 (bound on any allocation), reserved/client-only types and a second CONNACK reset without "
+       "touching state, zero/foreign/out-of-order/unsolicited acknowledgements change nothing (C13_no_forged_progress), malformed handshake "
+       "replies never connect; the dispatch table and the reset sentinels are regenerated facts. Hostile streams after valid prefixes are run "
+       "against the real client (panic/hang detection, progress justified by fed bytes).",
+  design="6/C13", technique="Lean 4 proof (decision logic, parser equivalence) + regenerated dispatch facts + hostile-input correspondence",
+  note="partial: no-panic is observed (recover in harness), not proved for the Go code; waiting time: ReadAll reads without deadline (F16, known finding)"),
+ "C14": dict(
+  text="Lean 4 theorems: Publish returns nil, a not-submitted class or an ErrSubmit and with a not-submitted class the state incl. the "
+       "connection log is unchanged; a refused persisted publish consumed nothing; quit yields only ErrCanceled/ErrAbandoned; Ping ErrMax iff "
+       "the slot is taken; deny and end classes are disjoint on produced errors. Every returned error of every request method in every client "
+       "state is classified with errors.Is/As against all sentinels and judged against the documented table on every run.",
+  design="6/C14", technique="Lean 4 proof (decision logic over request outcomes) + differential correspondence + class monitor",
+  note="partial: the classifier over arbitrary wrapped/joined errors (nonNilIsAny) and Backoff/ReadBackoff kinds are not modelled yet; documented table transcribed by hand"),
+ "C18": dict(
+  text="Lean 4 theorems: CONNACK decision table for every reply (accepted iff 20 02 00 00, or 20 02 01 00 without clean session; return code "
+       "checked before flags; wrong header, reserved flags, session-present on clean session are resets; short replies never connect), the "
+       "CONNECT flags byte carries clean-session exactly for cfg.cleanSession && no earlier connection, lockWrite table (wait on pending, "
+       "ErrDown on down). Connect histories incl. a sweep over flag bytes x return codes on first connect and reconnect run against the real client.",
+  design="6/C18", technique="Lean 4 proof (decision tables) + differential correspondence incl. CONNACK sweep",
+  note="partial: 'resend precedes any new request' under concurrent writers is the Sync model's token invariant; sequentially it is compared on the wire"),
  "C01": dict(
   text="Lean 4 theorems over the outbound core (Model.Core: counters, queues, store; every Persistence fault an argument of an operation): "
        "for every operation sequence the record of each accepted message is in the store at the right stage until its in-order final "
